@@ -919,3 +919,124 @@ func ruleP3c(c *Ctx) {
 		c.trivial("AppendTable in the fully specified branch", fn.Pos(), "the branch no longer appends")
 	}
 }
+
+// ---- S7c a batch decides on what it sees under its own lock -----------------------------------------------------------------------------------
+
+func ruleS7c(c *Ctx) {
+	c.Rule("S7c", "AddTriples and RemoveTriples of the index-owning graph look at the graph only inside their own critical section: they call no other method of the same graph (a lookup such as Exist made before taking the write lock decides on a state that a concurrent writer can change — the batch then takes effect partially; made while holding it, it re-enters the lock)", 2)
+	a := c.storeAnchors()
+	if a == nil {
+		return
+	}
+	owner, _ := c.indexOwner(a)
+	if owner == nil {
+		c.undecided("index owner", token.NoPos, "not found")
+		return
+	}
+	for _, name := range []string{"AddTriples", "RemoveTriples"} {
+		fn := methodByName(c, owner, name)
+		if fn == nil || len(fn.Params) == 0 {
+			continue
+		}
+		key := funcName(fn) + " calls no other method of its graph"
+		bad := ""
+		walkHelpers(fn, 2, func(_ *ssa.Function, in ssa.Instruction, _ ssa.Instruction) {
+			cc := callCommon(in)
+			if cc == nil {
+				return
+			}
+			callee := cc.StaticCallee()
+			if callee == nil || callee.Signature.Recv() == nil || namedOf(derefType(callee.Signature.Recv().Type())) != owner || len(cc.Args) == 0 {
+				return
+			}
+			if token.IsExported(callee.Name()) && c.derivedFromParam(resolveParam(cc.Args[0]), fn.Params[0], 0) {
+				bad = callee.Name() + " at " + c.pos(in.Pos())
+			}
+		})
+		c.check(bad == "", key, fn.Pos(), "the batch reads and writes the indexes directly, under its own lock", "the batch method calls "+bad+" on the same graph: what that call saw can change before (or because) the batch takes the write lock, so a concurrent add/remove makes the batch apply only in part")
+	}
+}
+
+// ---- T4 the size limit is the same on the way in and on the way out ---------------------------------------------------------------------------
+
+func ruleT4(c *Ctx) {
+	c.Rule("T4", "a bounded literal builder accepts when parsing exactly what it accepts when building: every comparison of a length with the builder's max in boundedBuilder.Build and boundedBuilder.Parse uses the same operator (a literal of exactly max bytes that can be built and printed must parse back)", 1)
+	bb := c.mustNamed("triple/literal", "boundedBuilder")
+	if bb == nil {
+		return
+	}
+	ops := map[string][]string{}
+	for _, fn := range c.methodsOf(bb) {
+		allInstrs(fn, func(in ssa.Instruction) {
+			bo, ok := in.(*ssa.BinOp)
+			if !ok {
+				return
+			}
+			tx, ty := c.term(bo.X), c.term(bo.Y)
+			op := bo.Op
+			switch {
+			case strings.Contains(tx, "len(") && strings.HasSuffix(ty, ".max"):
+			case strings.Contains(ty, "len(") && strings.HasSuffix(tx, ".max"):
+				// mirror so that the length is on the left
+				op = map[token.Token]token.Token{token.LSS: token.GTR, token.GTR: token.LSS, token.LEQ: token.GEQ, token.GEQ: token.LEQ, token.EQL: token.EQL, token.NEQ: token.NEQ}[op]
+			default:
+				return
+			}
+			ops[op.String()] = append(ops[op.String()], funcName(fn)+" at "+c.pos(in.Pos()))
+		})
+	}
+	var ks []string
+	n := 0
+	for k, v := range ops {
+		ks = append(ks, k+" in "+strings.Join(v, ", "))
+		n += len(v)
+	}
+	sort.Strings(ks)
+	if n < 2 {
+		c.undecided("boundedBuilder size checks", token.NoPos, "only %d comparisons with max found", n)
+		return
+	}
+	c.check(len(ops) == 1, "boundedBuilder compares sizes with one operator", bb.Obj().Pos(), fmt.Sprintf("%d comparisons, all `len %s max`", n, strings.SplitN(ks[0], " ", 2)[0]), "the size checks of the bounded builder disagree: "+strings.Join(ks, "; ")+" — a literal of exactly max bytes passes one and fails the other, so what Build produces does not parse back")
+}
+
+// ---- IE1 IsEmpty looks at the whole value -----------------------------------------------------------------------------------------------------
+
+func ruleIE1(c *Ctx) {
+	c.Rule("IE1", "a clause or pair counts as empty only if nothing in it is set: every IsEmpty method of the semantic package compares the whole value with its zero value (reflect.DeepEqual) or reads every field of its receiver's struct — a method that looks at some fields only drops parts that set just the others", 4)
+	n := 0
+	for _, fn := range c.srcFuncs("bql/semantic") {
+		if fn.Name() != "IsEmpty" || fn.Signature.Recv() == nil || fn.Parent() != nil {
+			continue
+		}
+		named := namedOf(derefType(fn.Signature.Recv().Type()))
+		if named == nil {
+			continue
+		}
+		st, ok := named.Underlying().(*types.Struct)
+		if !ok {
+			continue
+		}
+		n++
+		key := funcName(fn) + " looks at every field"
+		deep := false
+		read := map[int]bool{}
+		allInstrs(fn, func(in ssa.Instruction) {
+			if cc := callCommon(in); cc != nil && isCallTo(cc, "reflect", "DeepEqual") {
+				deep = true
+			}
+			if fa, ok := in.(*ssa.FieldAddr); ok && namedOf(derefType(fa.X.Type())) == named {
+				read[fa.Field] = true
+			}
+		})
+		var missing []string
+		for i := 0; i < st.NumFields(); i++ {
+			if !read[i] {
+				missing = append(missing, st.Field(i).Name())
+			}
+		}
+		c.check(deep || len(missing) == 0, key, fn.Pos(), "whole-value comparison or every field read", fmt.Sprintf("%s does not look at field(s) %v: a %s that sets only those is taken for empty and silently dropped", funcName(fn), missing, named.Obj().Name()))
+	}
+	if n < 4 {
+		c.undecided("IsEmpty methods", token.NoPos, "only %d found", n)
+	}
+}
